@@ -372,8 +372,11 @@ SegmentTransparent ==
   mode \in {"append", "closed"} =>
     \A s \in Markers(recs) : \A n \in pproc..Len(recs) :
        LET a == ReadFrom(recs, segs, n, s) b == Effect(Pre(recs, n), s)
+           t == EffectLoose(Pre(recs, n), Snap0)      \* the log itself (no index filter)
        IN a = b \/ a.err = "filenotfound"
-          \/ (a.err = "" /\ b.err = "" /\ a.ents = <<>> /\ a = [b EXCEPT !.ents = <<>>])
+          \/ (/\ a.err = "" /\ b.err = "" /\ a.ents = <<>> /\ a = [b EXCEPT !.ents = <<>>]
+              \* ... and what the whole-log reading has on top are stale entries only
+              /\ (t.err = "" => \A j \in 1..Len(b.ents) : \A q \in 1..Len(t.ents) : b.ents[j] # t.ents[q]))
 
 \* a marker ValidSnapshotEntries offers can be opened: it is in the log and unambiguous
 ValidSnapshotsAreCommitted ==
